@@ -121,15 +121,33 @@ unsigned int stub_assemble_asm(struct instr *ins, uint8_t *dest) {
   int i = (int)ins->cons;
   __CPROVER_assume(i >= 0 && i < KMAX);
   unsigned len = P->l[i].len;
-  long off = (long)(dest - g_base);
   g_asm_calls++;
+#ifdef GLUE_MANAGED
+  /* library-managed buffer: the permitted range is the mapping the OS model
+   * currently has (a stale address after a moving mremap is out of range) */
+  extern unsigned char *os_code_base(void);
+  extern unsigned os_anon_len;
+  if (g_base == NULL) {
+    long offm = (long)(dest - os_code_base());
+    int okm = offm >= 0 && offm + (long)len <= (long)os_anon_len;
+    CHECK(okm, "an instruction is written only inside the current managed mapping (never through a stale address)");
+    if (!okm) return len;
+    g_pos[g_cur_prog][i] = offm;
+    dest[0] = P->l[i].sig[0];
+    return len;
+  }
+#endif
+  long off = (long)(dest - g_base);
   int ok = __CPROVER_same_object(dest, g_base) && off >= g_lo && off + (long)len <= g_hi;
   CHECK(ok, "an instruction is written only inside the attached buffer, at or after the call's start offset");
   if (!ok) { g_range_violations++; return len; }
   if (g_need_reserve)
     CHECK(off + 20 <= g_buflen, "an instruction is written only while the documented 20 reserve bytes remain");
   g_pos[g_cur_prog][i] = off;
-#ifndef GLUE_NOWRITE
+#if defined(GLUE_TOUCH)
+  dest[0] = P->l[i].sig[0];
+  dest[len - 1] = P->l[i].sig[LMAX - 1];
+#elif !defined(GLUE_NOWRITE)
   /* queries about positions and lengths only (GLUE_NOWRITE) skip the byte
    * copy: symbolic-offset array stores dominate the formula size */
   for (unsigned j = 0; j < LMAX; j++)
